@@ -99,8 +99,17 @@ fn main() {
                 "last" => n = evaluator.into_iter().last().is_some() as u64,
                 "fold" => n = evaluator.into_iter().fold(0u64, |a, _| a + 1),
                 _ => {
-                    for _showdown in evaluator {
+                    // to the end, and then 600 more polls (a round-robin merge of scoped evaluators, a polling loop or a
+                    // reused by_ref() keeps calling next() on an exhausted iterator): it stays exhausted, without panicking
+                    let mut it = evaluator.into_iter();
+                    while it.next().is_some() {
                         n += 1;
+                    }
+                    for k in 0..600 {
+                        if it.next().is_some() {
+                            eprintln!("next() returned a showdown on poll {} after the enumeration had ended", k + 1);
+                            std::process::exit(102);
+                        }
                     }
                 }
             }
